@@ -109,13 +109,81 @@ def run_with(guarded, rules, hist, vals, cfg, faults, followups, collect=None):
 
 def sc_json(guarded, rules, hist, vals, cfg, faults, followups):
     return {"guarded": guarded,
-            "rules": [[list(c), x, list(s), b] for ((c, x), (s, b)) in rules],
+            "rules": [[list(c), x, list(r[0]), r[1]] + list(r[2:]) for ((c, x), r) in rules],
             "history": list(hist), "vals": vals, "cfg": list(cfg),
             "faults": [[list(c), t, i, k] for (c, t, i), k in faults.items()],
             "followups": list(followups)}
 
 
+def property_faults(res):
+    """Guards / actions supplied as *properties* (of the machine, the model or a listener) that
+    start failing later: the exception - whatever its class, AttributeError included - must reach
+    the caller, the state stays the source, and the machine keeps working afterwards."""
+    from statemachine import State, StateMachine
+    from statemachine.factory import StateMachineMetaclass
+    from ..env import BOOMS
+    for asyn in (False, True):
+        for where in ("machine", "model", "listener"):
+            for role in ("cond", "unless", "validators", "on"):
+                for ci, exc_cls in enumerate(BOOMS):
+                    holder = {"fail": False, "reads": 0}
+
+                    def getter(self, holder=holder, exc_cls=exc_cls, role=role):
+                        holder["reads"] += 1
+                        if holder["fail"]:
+                            raise exc_cls(77)
+                        return role != "unless"
+                    sa, sb = State(initial=True), State()
+                    kw = {role: "probe"}
+                    ns = {"a": sa, "b": sb, "go": sa.to(sb, **kw) | sb.to(sa)}
+                    if asyn:
+                        async def after_transition(self):
+                            return None
+                        ns["after_transition"] = after_transition
+                    mod_ns, lis_ns = {"state": None}, {}
+                    {"machine": ns, "model": mod_ns, "listener": lis_ns}[where]["probe"] = \
+                        property(getter)
+                    cls = StateMachineMetaclass("PF", (StateMachine,), ns)
+                    sm = cls(type("PMod", (), mod_ns)(), listeners=[type("PLis", (), lis_ns)()])
+                    sm.activate_initial_state()
+                    res.stats["evaluations"] += 1
+                    res.hist["property-fault"] += 1
+                    sc = {"property_fault": [asyn, where, role, ci]}
+                    holder["fail"] = True
+                    try:
+                        r = sm.send("go")
+                        got = ("ok", r)
+                    except Exception as e:   # noqa: BLE001
+                        got = ("exc", type(e).__name__, e.args)
+                    want = ("exc", exc_cls.__name__, (77,))
+                    msg = None
+                    if got != want:
+                        msg = (f"{role} given as a property of the {where} raised "
+                               f"{exc_cls.__name__}(77): send() gave {got}, expected {want}")
+                    elif sm.current_state.id != "a":
+                        msg = f"state after the failing {role} is {sm.current_state.id}, expected a"
+                    else:
+                        holder["fail"] = False
+                        try:
+                            sm.send("go")
+                        except Exception as e:   # noqa: BLE001
+                            msg = f"follow-up event after the failure raised {type(e).__name__}: {e}"
+                        else:
+                            if sm.current_state.id != "b":
+                                msg = "follow-up event after the failure was not processed"
+                    if msg:
+                        res.violation({"category": "property-fault", "role": role,
+                                       "exc": exc_cls.__name__}, sc,
+                                      f"[{'async' if asyn else 'sync'}] {msg}")
+
+
 def worker(block):
+    if block[0] == "property-faults":
+        res = BlockResult()
+        with deadline(300):
+            property_faults(res)
+        res.stats["states"] += 1
+        return res
     tier, lo, hi = block
     res = BlockResult()
     for (guarded, rules, hist, vals) in base_scenarios(tier)[lo:hi]:
@@ -196,7 +264,7 @@ def run(tier, seed):
     rep = Report(PID, tier, seed, level="fault_enumeration")
     n = len(base_scenarios(tier))
     step = 6 if tier == "quick" else 4
-    blocks = [(tier, i, min(i + step, n)) for i in range(0, n, step)]
+    blocks = [(tier, i, min(i + step, n)) for i in range(0, n, step)] + [("property-faults",)]
     total, capped = run_blocks(worker, blocks, seed=seed)
     rep.add_violations(total.violations, total.hist_sig)
     rep.harness_errors = total.stats.get("harness_errors", 0)
@@ -225,8 +293,15 @@ def run(tier, seed):
 
 
 def replay(sc):
+    if "property_fault" in sc:
+        res = BlockResult()
+        property_faults(res)
+        for v in res.violations:
+            if v["scenario"] == sc:
+                return v["message"]
+        return None
     cfg = Cfg(*sc["cfg"])
-    rules = [((tuple(c), x), (tuple(s), b)) for c, x, s, b in sc["rules"]]
+    rules = [((tuple(r[0]), r[1]), (tuple(r[2]), r[3]) + tuple(r[4:])) for r in sc["rules"]]
     faults = {(tuple(c), t, i): k for c, t, i, k in sc["faults"]}
     vals = sc["vals"]
     if vals:
